@@ -31,11 +31,11 @@ Proof.
   - rewrite IHPermutation1. apply IHPermutation2.
 Qed.
 
-Lemma eval_sum_of env venv : forall l a,
-  eval env venv (sum_of a l) = fold_left oadd (map (eval env venv) l) (eval env venv a).
+Lemma eval_sum_of cx : forall l a,
+  eval cx (sum_of a l) = fold_left oadd (map (eval cx) l) (eval cx a).
 Proof. induction l; simpl; intros; auto. rewrite IHl. reflexivity. Qed.
-Lemma eval_prod_of env venv : forall l a,
-  eval env venv (prod_of a l) = fold_left omul (map (eval env venv) l) (eval env venv a).
+Lemma eval_prod_of cx : forall l a,
+  eval cx (prod_of a l) = fold_left omul (map (eval cx) l) (eval cx a).
 Proof. induction l; simpl; intros; auto. rewrite IHl. reflexivity. Qed.
 
 Lemma num0 : num_val ["0"] [] = 0%Qc.
@@ -43,29 +43,29 @@ Proof. apply Qc_is_canon. reflexivity. Qed.
 Lemma num1 : num_val ["1"] [] = 1%Qc.
 Proof. apply Qc_is_canon. reflexivity. Qed.
 
-Lemma eval_sum_list env venv l :
-  eval env venv (sum_list l) = fold_left oadd (map (eval env venv) l) (Some 0%Qc).
+Lemma eval_sum_list cx l :
+  eval cx (sum_list l) = fold_left oadd (map (eval cx) l) (Some 0%Qc).
 Proof.
   destruct l as [|a r]; simpl.
   - rewrite num0. reflexivity.
-  - rewrite eval_sum_of. f_equal. destruct (eval env venv a); simpl; [f_equal; ring|reflexivity].
+  - rewrite eval_sum_of. f_equal. destruct (eval cx a); simpl; [f_equal; ring|reflexivity].
 Qed.
-Lemma eval_prod_list env venv l :
-  eval env venv (prod_list l) = fold_left omul (map (eval env venv) l) (Some 1%Qc).
+Lemma eval_prod_list cx l :
+  eval cx (prod_list l) = fold_left omul (map (eval cx) l) (Some 1%Qc).
 Proof.
   destruct l as [|a r]; simpl.
   - rewrite num1. reflexivity.
-  - rewrite eval_prod_of. f_equal. destruct (eval env venv a); simpl; [f_equal; ring|reflexivity].
+  - rewrite eval_prod_of. f_equal. destruct (eval cx a); simpl; [f_equal; ring|reflexivity].
 Qed.
 
-Theorem eval_sum_perm env venv l l' : Permutation l l' ->
-  eval env venv (sum_list l) = eval env venv (sum_list l').
+Theorem eval_sum_perm cx l l' : Permutation l l' ->
+  eval cx (sum_list l) = eval cx (sum_list l').
 Proof.
   intros P. rewrite !eval_sum_list. apply fold_left_perm; [apply oadd_comm|apply oadd_assoc|].
   apply Permutation_map, P.
 Qed.
-Theorem eval_prod_perm env venv l l' : Permutation l l' ->
-  eval env venv (prod_list l) = eval env venv (prod_list l').
+Theorem eval_prod_perm cx l l' : Permutation l l' ->
+  eval cx (prod_list l) = eval cx (prod_list l').
 Proof.
   intros P. rewrite !eval_prod_list. apply fold_left_perm; [apply omul_comm|apply omul_assoc|].
   apply Permutation_map, P.
@@ -311,6 +311,12 @@ Proof.
   destruct (code c =? 95)%nat eqn:C3; [apply Nat.eqb_eq in C3; lia|]. reflexivity.
 Qed.
 
+Lemma not_alpha_not_e c : is_alpha c = false -> is_e c = false.
+Proof.
+  intros H. unfold is_e. destruct (Ascii.eqb c "e") eqn:E1; [apply Ascii.eqb_eq in E1; subst; discriminate|].
+  destruct (Ascii.eqb c "E") eqn:E2; [apply Ascii.eqb_eq in E2; subst; discriminate|]. reflexivity.
+Qed.
+
 Lemma start_alpha c : is_alpha c = true -> start c = Some ([], SId [c]).
 Proof. intros H. unfold start. rewrite (alpha_not_space c H), H. reflexivity. Qed.
 Lemma start_digit c : is_digit c = true -> start c = Some ([], SNum [c]).
@@ -379,7 +385,8 @@ Proof.
              (forall c tl, tail = c :: tl -> step (SFrac (d :: ds) fp') c = emit (TNum (d :: ds) fp') (start c)) /\
              (forall c tl, tail = c :: tl -> step (SNum (d :: ds)) c = emit (TNum (d :: ds) []) (start c))).
     { intros fp' E'. split; intros c tl ->; simpl in E'; apply andb_true_iff in E'; destruct E' as [E1 E3];
-        apply andb_true_iff in E1; destruct E1 as [E1 E2]; apply negb_true_iff in E1, E2, E3; simpl; rewrite E1, E2, E3; reflexivity. }
+        apply andb_true_iff in E1; destruct E1 as [E1 E2]; apply negb_true_iff in E1, E2, E3; simpl;
+        rewrite E1, E2, E3, (not_alpha_not_e _ E3); reflexivity. }
     destruct fp as [|f fs].
     + cbn [tok_text]. rewrite <- app_comm_cons.
       rewrite (lex_nil_out S0 d _ (SNum [d])); [|simpl; apply start_digit; auto].
@@ -490,8 +497,9 @@ Lemma pTl_div n acc r : pTl (S n) acc (TDiv :: r) = match pU n r with Some (b, r
 Proof. reflexivity. Qed.
 Lemma pU_minus n r : pU (S n) (TMinus :: r) = match pU n r with Some (a, r') => Some (Neg a, r') | None => None end.
 Proof. reflexivity. Qed.
-Lemma pU_nominus n t r : t <> TMinus -> pU (S n) (t :: r) = pP n (t :: r).
-Proof. destruct t; try reflexivity. congruence. Qed.
+Definition nosign (t : tok) : bool := match t with TMinus | TPlus => false | _ => true end.
+Lemma pU_nominus n t r : nosign t = true -> pU (S n) (t :: r) = pP n (t :: r).
+Proof. destruct t; try reflexivity; discriminate. Qed.
 Lemma pA_paren n r : pA (S n) (TLp :: r) = match pE n r with Some (e, TRp :: r') => Some (e, r') | _ => None end.
 Proof. reflexivity. Qed.
 
@@ -568,7 +576,7 @@ Proof.
 Qed.
 
 Definition starts_nominus (X : list tok) : Prop :=
-  forall Y, exists t r, X ++ Y = t :: r /\ t <> TMinus.
+  forall Y, exists t r, X ++ Y = t :: r /\ nosign t = true.
 
 Lemma from_A e X c :
   (forall rest, stop 4 rest = true -> forall n, n >= c -> pA n (X ++ rest) = Some (e, rest)) ->
@@ -590,7 +598,7 @@ Proof.
     replace ((TLp :: X ++ [TRp]) ++ rest) with (TLp :: (X ++ TRp :: rest)) by (simpl; rewrite <- app_assoc; reflexivity).
     rewrite pA_paren.
     rwc (C0 (TRp :: rest) 1 (e, TRp :: rest) eq_refl (pEl_rp e rest) n1 ltac:(lia)). reflexivity.
-  - intros Y. exists TLp, ((X ++ [TRp]) ++ Y). split; [reflexivity|discriminate].
+  - intros Y. exists TLp, ((X ++ [TRp]) ++ Y). split; reflexivity.
 Qed.
 
 Lemma wrap_concl e B c : Concl 0 e B c -> forall w lvl, lvl_ok lvl -> Concl lvl e (wrap (S w) B) (c + 7 * S w).
@@ -608,7 +616,7 @@ Proof.
   - intros rest _ n Hn. destruct n; [lia|]. simpl.
     unfold wf_num in W. destruct ip; [discriminate|]. apply andb_true_iff in W. destruct W as [_ W].
     apply negb_true_iff in W. rewrite W. reflexivity.
-  - intros Y. exists (TNum ip fp), Y. split; [reflexivity|discriminate].
+  - intros Y. exists (TNum ip fp), Y. split; reflexivity.
 Qed.
 
 Lemma good_var x : forall lvl, lvl_ok lvl -> Concl lvl (Var x) [TId x] 6.
@@ -616,7 +624,7 @@ Proof.
   apply (from_A _ _ 1).
   - intros rest S4 n Hn. destruct n; [lia|]. simpl. destruct rest as [|t r]; [reflexivity|].
     destruct t; try reflexivity. discriminate.
-  - intros Y. exists (TId x), Y. split; [reflexivity|discriminate].
+  - intros Y. exists (TId x), Y. split; reflexivity.
 Qed.
 
 Lemma good_neg a A ca : Concl 2 a A ca ->
@@ -684,14 +692,40 @@ Proof.
 Qed.
 
 (* ------------------------------------------------------------------ assembling pr *)
-Fixpoint cost (ps : pstyle) (e : expr) : nat :=
-  7 * (ps [] + 1) + 8 +
-  match e with
-  | Num _ _ | Var _ | Call _ _ => 0
-  | Neg a => cost (sub 0 ps) a
-  | Add a b | Sub a b | Mul a b | Div a b | Pow a b => cost (sub 0 ps) a + cost (sub 1 ps) b
-  end.
+(* ------------------------------------------------------------------ induction over the nested AST *)
+Lemma expr_ind' (P : expr -> Prop) :
+  (forall ip fp, P (Num ip fp)) -> (forall x, P (Var x)) -> (forall a, P a -> P (Neg a)) ->
+  (forall a b, P a -> P b -> P (Add a b)) -> (forall a b, P a -> P b -> P (Sub a b)) ->
+  (forall a b, P a -> P b -> P (Mul a b)) -> (forall a b, P a -> P b -> P (Div a b)) ->
+  (forall a b, P a -> P b -> P (Pow a b)) ->
+  (forall f args, Forall P args -> P (Call f args)) -> forall e, P e.
+Proof.
+  intros HN HV HNeg HA HS HM HD HP HC. fix IH 1. intros e. destruct e.
+  - apply HN. - apply HV. - apply HNeg, IH. - apply HA; apply IH. - apply HS; apply IH.
+  - apply HM; apply IH. - apply HD; apply IH. - apply HP; apply IH.
+  - apply HC. induction args as [|a l IHl]; constructor; [apply IH|exact IHl].
+Qed.
 
+Lemma wf_call f args : wf_expr (Call f args) = true -> wf_id f = true /\ Forall (fun a => wf_expr a = true) args.
+Proof.
+  cbn [wf_expr]. intros H. apply andb_true_iff in H. destruct H as [H1 H2]. split; auto.
+  induction args as [|a l IH]; constructor; apply andb_true_iff in H2; destruct H2; auto.
+Qed.
+
+(* the argument list of a call as the printer lays it out (a named copy of the local fixpoint of Lang.pr) *)
+Fixpoint go_args (ps : pstyle) (i : nat) (l : list expr) : list tok :=
+  match l with
+  | [] => [TRp]
+  | a :: l' => pr 0 (sub i ps) a ++ match l' with [] => go_args ps (S i) l' | _ => TComma :: go_args ps (S i) l' end
+  end.
+Lemma pr_call lvl ps f args :
+  pr lvl ps (Call f args) = wrap (ps [] + (if (4 <? lvl)%nat then 1 else 0)) (TId f :: TLp :: go_args ps 0 args).
+Proof.
+  cbn [pr natlvl]. f_equal. f_equal. f_equal. generalize 0 at 2 3. induction args as [|a l IH]; intros i; [reflexivity|].
+  cbn [go_args]. f_equal. destruct l; [reflexivity|]. f_equal. apply IH.
+Qed.
+
+(* ------------------------------------------------------------------ assembling pr *)
 Lemma assemble e B cb (ps : pstyle) lvl :
   (forall l, lvl_ok l -> l <= natlvl e -> Concl l e B cb) -> lvl_ok lvl ->
   Concl lvl e (wrap (ps [] + (if (natlvl e <? lvl)%nat then 1 else 0)) B) (cb + 7 * (ps [] + 1)).
@@ -705,119 +739,193 @@ Proof.
     + apply (concl_mono _ e _ (cb + 7 * S w)); [|lia]. apply wrap_concl; auto.
 Qed.
 
-Lemma wrap_starts w B : (w = 0 -> starts_nominus B) -> starts_nominus (wrap w B).
+Lemma wrap_length w B : List.length (wrap w B) = 2 * w + List.length B.
+Proof. induction w; simpl; auto. rewrite app_length. simpl. lia. Qed.
+Lemma wrap_length_ge (ps : pstyle) m B : 2 * ps [] + List.length B <= List.length (wrap (ps [] + m) B).
+Proof. rewrite wrap_length. lia. Qed.
+
+(* first token of a printed expression: never `)`; at the atom level never a sign *)
+Definition starts_norp (X : list tok) : Prop := forall Y, exists t r, X ++ Y = t :: r /\ t <> TRp.
+Lemma wrap_norp w B : (w = 0 -> starts_norp B) -> starts_norp (wrap w B).
 Proof.
   intros H. destruct w as [|w]; [apply H; reflexivity|].
   intros Y. exists TLp, ((wrap w B ++ [TRp]) ++ Y). split; [reflexivity|discriminate].
 Qed.
-
-Lemma pr4_starts ps a : no_call a = true -> starts_nominus (pr 4 ps a).
+Lemma app_norp A B : starts_norp A -> starts_norp (A ++ B).
+Proof. intros H Y. rewrite <- app_assoc. apply H. Qed.
+Lemma pr_norp : forall e lvl ps, starts_norp (pr lvl ps e).
 Proof.
-  intros NC. destruct a; try discriminate; cbn [pr natlvl]; apply wrap_starts; intros E;
-    try (cbn in E; lia).
-  - intros Y. exists (TNum ip fp), Y. split; [reflexivity|discriminate].
-  - intros Y. exists (TId x), Y. split; [reflexivity|discriminate].
+  induction e; intros lvl ps; try rewrite pr_call; cbn [pr]; apply wrap_norp; intros _;
+    try (apply app_norp; auto);
+    try (intros Y; eexists; eexists; split; [reflexivity|discriminate]).
+Qed.
+
+Lemma wrap_starts w B : (w = 0 -> starts_nominus B) -> starts_nominus (wrap w B).
+Proof.
+  intros H. destruct w as [|w]; [apply H; reflexivity|].
+  intros Y. exists TLp, ((wrap w B ++ [TRp]) ++ Y). split; reflexivity.
+Qed.
+Lemma pr4_starts ps a : starts_nominus (pr 4 ps a).
+Proof.
+  destruct a; try rewrite pr_call; cbn [pr natlvl]; apply wrap_starts; intros E; try (cbn in E; lia);
+    intros Y; eexists; eexists; split; reflexivity.
 Qed.
 
 Lemma lvl_cases l : lvl_ok l -> forall n, l <= n -> n <= 2 -> l = 0 \/ l = 1 \/ l = 2.
 Proof. intros [->|[->|[->| ->]]] n H1 H2; auto; lia. Qed.
-
 Ltac solve_ok := solve [left; reflexivity | right; left; reflexivity | right; right; left; reflexivity | right; right; right; reflexivity].
 
-Theorem parse_main : forall e, no_call e = true -> wf_expr e = true ->
-  forall ps lvl, lvl_ok lvl -> Concl lvl e (pr lvl ps e) (cost ps e).
+(* ------------------------------------------------------------------ argument lists *)
+Lemma pArgs_S n ts : pArgs (S n) ts =
+  match pE n ts with
+  | Some (e, TComma :: r) => match pArgs n r with Some (es, r') => Some (e :: es, r') | None => None end
+  | Some (e, TRp :: r) => Some ([e], r)
+  | _ => None
+  end.
+Proof. reflexivity. Qed.
+Lemma pEl_comma e rest : forall m, m >= 1 -> pEl m e (TComma :: rest) = Some (e, TComma :: rest).
+Proof. intros m Hm. destruct m; [lia|]. reflexivity. Qed.
+
+Definition Main (e : expr) : Prop :=
+  wf_expr e = true -> forall ps lvl, lvl_ok lvl ->
+  exists c, c <= 15 * List.length (pr lvl ps e) /\ Concl lvl e (pr lvl ps e) c.
+
+Lemma go_args_one ps i a : go_args ps i [a] = pr 0 (sub i ps) a ++ [TRp].
+Proof. reflexivity. Qed.
+Lemma go_args_more ps i a b l : go_args ps i (a :: b :: l) = pr 0 (sub i ps) a ++ TComma :: go_args ps (S i) (b :: l).
+Proof. reflexivity. Qed.
+
+Lemma args_main : forall args, Forall Main args -> Forall (fun a => wf_expr a = true) args -> args <> [] ->
+  forall ps i, exists c, c <= 15 * List.length (go_args ps i args) /\
+    forall rest n, n >= c -> pArgs n (go_args ps i args ++ rest) = Some (args, rest).
 Proof.
-  induction e; intros NC WF ps lvl OK; try discriminate.
-  - (* Num *) cbn [pr cost natlvl]. apply (concl_mono _ _ _ (6 + 7 * (ps [] + 1))); [|lia].
-    apply assemble; auto. intros l Hl _. apply good_num; auto.
-  - (* Var *) cbn [pr cost natlvl]. apply (concl_mono _ _ _ (6 + 7 * (ps [] + 1))); [|lia].
-    apply assemble; auto. intros l Hl _. apply good_var; auto.
-  - (* Neg *) cbn [pr cost natlvl]. simpl in NC, WF.
-    apply (concl_mono _ _ _ (cost (sub 0 ps) e + 4 + 7 * (ps [] + 1))); [|lia].
-    apply (assemble (Neg e)); auto. intros l Hl Hn. apply good_neg.
-    + apply IHe; auto; try solve_ok.
-    + apply (lvl_cases l Hl 2); auto.
-  - (* Add *) cbn [pr cost natlvl]. simpl in NC, WF. apply andb_true_iff in NC, WF. destruct NC, WF.
-    apply (concl_mono _ _ _ (cost (sub 0 ps) e1 + cost (sub 1 ps) e2 + 2 + 7 * (ps [] + 1))); [|lia].
-    apply (assemble (Add e1 e2)); auto. intros l Hl Hn. cbn in Hn. assert (l = 0) by lia. subst l.
-    apply good_add; [apply IHe1|apply IHe2]; auto; try solve_ok.
-  - (* Sub *) cbn [pr cost natlvl]. simpl in NC, WF. apply andb_true_iff in NC, WF. destruct NC, WF.
-    apply (concl_mono _ _ _ (cost (sub 0 ps) e1 + cost (sub 1 ps) e2 + 2 + 7 * (ps [] + 1))); [|lia].
-    apply (assemble (Sub e1 e2)); auto. intros l Hl Hn. cbn in Hn. assert (l = 0) by lia. subst l.
-    apply good_sub; [apply IHe1|apply IHe2]; auto; try solve_ok.
-  - (* Mul *) cbn [pr cost natlvl]. simpl in NC, WF. apply andb_true_iff in NC, WF. destruct NC, WF.
-    apply (concl_mono _ _ _ (cost (sub 0 ps) e1 + cost (sub 1 ps) e2 + 3 + 7 * (ps [] + 1))); [|lia].
-    apply (assemble (Mul e1 e2)); auto. intros l Hl Hn. cbn in Hn.
-    apply good_mul; [apply IHe1|apply IHe2|]; auto; try solve_ok.
-    destruct Hl as [->|[->|[->| ->]]]; auto; lia.
-  - (* Div *) cbn [pr cost natlvl]. simpl in NC, WF. apply andb_true_iff in NC, WF. destruct NC, WF.
-    apply (concl_mono _ _ _ (cost (sub 0 ps) e1 + cost (sub 1 ps) e2 + 3 + 7 * (ps [] + 1))); [|lia].
-    apply (assemble (Div e1 e2)); auto. intros l Hl Hn. cbn in Hn.
-    apply good_div; [apply IHe1|apply IHe2|]; auto; try solve_ok.
-    destruct Hl as [->|[->|[->| ->]]]; auto; lia.
-  - (* Pow *) cbn [pr cost natlvl]. simpl in NC, WF. apply andb_true_iff in NC, WF. destruct NC, WF.
-    apply (concl_mono _ _ _ (cost (sub 0 ps) e1 + cost (sub 1 ps) e2 + 5 + 7 * (ps [] + 1))); [|lia].
-    apply (assemble (Pow e1 e2)); auto. intros l Hl Hn. cbn in Hn.
-    apply good_pow; [apply IHe1|apply IHe2|apply pr4_starts|]; auto; try solve_ok.
-    destruct Hl as [->|[->|[->| ->]]]; auto; lia.
+  induction args as [|a l IH]; intros FM FW NE ps i; [congruence|].
+  inversion FM as [|? ? Ma Ml]; subst. inversion FW as [|? ? Wa Wl]; subst.
+  destruct (Ma Wa (sub i ps) 0 (or_introl eq_refl)) as (ca & Hca & Ca).
+  destruct l as [|b l'].
+  - exists (ca + 2). rewrite go_args_one. split; [rewrite app_length; simpl; lia|].
+    intros rest n Hn. destruct n as [|n1]; [lia|]. rewrite pArgs_S. rewrite <- app_assoc. cbn [app].
+    rwc (Ca (TRp :: rest) 1 (a, TRp :: rest) eq_refl (pEl_rp a rest) n1 ltac:(lia)). reflexivity.
+  - destruct (IH Ml Wl ltac:(discriminate) ps (S i)) as (cg & Hcg & Cg).
+    exists (ca + cg + 2). rewrite go_args_more. split; [rewrite app_length; cbn [List.length]; lia|].
+    intros rest n Hn. destruct n as [|n1]; [lia|]. rewrite pArgs_S. rewrite <- app_assoc. cbn [app].
+    rwc (Ca (TComma :: go_args ps (S i) (b :: l') ++ rest) 1 (a, TComma :: go_args ps (S i) (b :: l') ++ rest) eq_refl
+            (pEl_comma a _) n1 ltac:(lia)).
+    rewrite (Cg rest n1 ltac:(lia)). reflexivity.
 Qed.
 
-(* ------------------------------------------------------------------ fuel *)
-Lemma wrap_length w B : List.length (wrap w B) = 2 * w + List.length B.
-Proof. induction w; simpl; auto. rewrite app_length. simpl. lia. Qed.
+Lemma pA_call n f t r : t <> TRp ->
+  pA (S n) (TId f :: TLp :: t :: r) = match pArgs n (t :: r) with Some (args, r') => Some (Call f args, r') | None => None end.
+Proof. destruct t; try reflexivity. congruence. Qed.
 
-Lemma cost_bound : forall e ps lvl, no_call e = true -> cost ps e <= 15 * List.length (pr lvl ps e).
+Lemma go_args_norp ps i a l : starts_norp (go_args ps i (a :: l)).
+Proof. cbn [go_args]. apply app_norp, pr_norp. Qed.
+
+Theorem parse_main : forall e, Main e.
 Proof.
-  induction e; intros ps lvl NC; try discriminate; cbn [pr cost]; rewrite wrap_length;
-    simpl in NC; try (apply andb_true_iff in NC; destruct NC as [NC1 NC2]).
-  - simpl. lia.
-  - simpl. lia.
-  - cbn [List.length]. specialize (IHe (sub 0 ps) 2 NC). lia.
-  - rewrite app_length. cbn [List.length]. specialize (IHe1 (sub 0 ps) 0 NC1). specialize (IHe2 (sub 1 ps) 1 NC2). lia.
-  - rewrite app_length. cbn [List.length]. specialize (IHe1 (sub 0 ps) 0 NC1). specialize (IHe2 (sub 1 ps) 1 NC2). lia.
-  - rewrite app_length. cbn [List.length]. specialize (IHe1 (sub 0 ps) 1 NC1). specialize (IHe2 (sub 1 ps) 2 NC2). lia.
-  - rewrite app_length. cbn [List.length]. specialize (IHe1 (sub 0 ps) 1 NC1). specialize (IHe2 (sub 1 ps) 2 NC2). lia.
-  - rewrite app_length. cbn [List.length]. specialize (IHe1 (sub 0 ps) 4 NC1). specialize (IHe2 (sub 1 ps) 2 NC2). lia.
+  induction e using expr_ind'; intros WF ps lvl OK.
+  - (* Num *) exists (6 + 7 * (ps [] + 1)). cbn [pr natlvl]. split.
+    + pose proof (wrap_length_ge ps (if 4 <? lvl then 1 else 0) [TNum ip fp]). simpl in *. lia.
+    + apply assemble; auto. intros l Hl _. apply good_num; auto.
+  - (* Var *) exists (6 + 7 * (ps [] + 1)). cbn [pr natlvl]. split.
+    + pose proof (wrap_length_ge ps (if 4 <? lvl then 1 else 0) [TId x]). simpl in *. lia.
+    + apply assemble; auto. intros l Hl _. apply good_var; auto.
+  - (* Neg *) simpl in WF. destruct (IHe WF (sub 0 ps) 2 ltac:(solve_ok)) as (ca & Hca & Ca).
+    exists (ca + 4 + 7 * (ps [] + 1)). cbn [pr natlvl]. split.
+    + pose proof (wrap_length_ge ps (if 2 <? lvl then 1 else 0) (TMinus :: pr 2 (sub 0 ps) e)). cbn [List.length] in *. lia.
+    + apply (assemble (Neg e)); auto. intros l Hl Hn. apply good_neg; auto. apply (lvl_cases l Hl 2); auto.
+  - (* Add *) simpl in WF. apply andb_true_iff in WF. destruct WF as [W1 W2].
+    destruct (IHe1 W1 (sub 0 ps) 0 ltac:(solve_ok)) as (ca & Hca & Ca). destruct (IHe2 W2 (sub 1 ps) 1 ltac:(solve_ok)) as (cb & Hcb & Cb).
+    exists (ca + cb + 2 + 7 * (ps [] + 1)). cbn [pr natlvl]. split.
+    + pose proof (wrap_length_ge ps (if 0 <? lvl then 1 else 0) (pr 0 (sub 0 ps) e1 ++ TPlus :: pr 1 (sub 1 ps) e2)) as L.
+      rewrite app_length in L. cbn [List.length] in L. lia.
+    + apply (assemble (Add e1 e2)); auto. intros l Hl Hn. cbn in Hn. assert (l = 0) by lia. subst l. apply good_add; auto.
+  - (* Sub *) simpl in WF. apply andb_true_iff in WF. destruct WF as [W1 W2].
+    destruct (IHe1 W1 (sub 0 ps) 0 ltac:(solve_ok)) as (ca & Hca & Ca). destruct (IHe2 W2 (sub 1 ps) 1 ltac:(solve_ok)) as (cb & Hcb & Cb).
+    exists (ca + cb + 2 + 7 * (ps [] + 1)). cbn [pr natlvl]. split.
+    + pose proof (wrap_length_ge ps (if 0 <? lvl then 1 else 0) (pr 0 (sub 0 ps) e1 ++ TMinus :: pr 1 (sub 1 ps) e2)) as L.
+      rewrite app_length in L. cbn [List.length] in L. lia.
+    + apply (assemble (Sub e1 e2)); auto. intros l Hl Hn. cbn in Hn. assert (l = 0) by lia. subst l. apply good_sub; auto.
+  - (* Mul *) simpl in WF. apply andb_true_iff in WF. destruct WF as [W1 W2].
+    destruct (IHe1 W1 (sub 0 ps) 1 ltac:(solve_ok)) as (ca & Hca & Ca). destruct (IHe2 W2 (sub 1 ps) 2 ltac:(solve_ok)) as (cb & Hcb & Cb).
+    exists (ca + cb + 3 + 7 * (ps [] + 1)). cbn [pr natlvl]. split.
+    + pose proof (wrap_length_ge ps (if 1 <? lvl then 1 else 0) (pr 1 (sub 0 ps) e1 ++ TMul :: pr 2 (sub 1 ps) e2)) as L.
+      rewrite app_length in L. cbn [List.length] in L. lia.
+    + apply (assemble (Mul e1 e2)); auto. intros l Hl Hn. cbn in Hn. apply good_mul; auto.
+      destruct Hl as [->|[->|[->| ->]]]; auto; lia.
+  - (* Div *) simpl in WF. apply andb_true_iff in WF. destruct WF as [W1 W2].
+    destruct (IHe1 W1 (sub 0 ps) 1 ltac:(solve_ok)) as (ca & Hca & Ca). destruct (IHe2 W2 (sub 1 ps) 2 ltac:(solve_ok)) as (cb & Hcb & Cb).
+    exists (ca + cb + 3 + 7 * (ps [] + 1)). cbn [pr natlvl]. split.
+    + pose proof (wrap_length_ge ps (if 1 <? lvl then 1 else 0) (pr 1 (sub 0 ps) e1 ++ TDiv :: pr 2 (sub 1 ps) e2)) as L.
+      rewrite app_length in L. cbn [List.length] in L. lia.
+    + apply (assemble (Div e1 e2)); auto. intros l Hl Hn. cbn in Hn. apply good_div; auto.
+      destruct Hl as [->|[->|[->| ->]]]; auto; lia.
+  - (* Pow *) simpl in WF. apply andb_true_iff in WF. destruct WF as [W1 W2].
+    destruct (IHe1 W1 (sub 0 ps) 4 ltac:(solve_ok)) as (ca & Hca & Ca). destruct (IHe2 W2 (sub 1 ps) 2 ltac:(solve_ok)) as (cb & Hcb & Cb).
+    exists (ca + cb + 5 + 7 * (ps [] + 1)). cbn [pr natlvl]. split.
+    + pose proof (wrap_length_ge ps (if 3 <? lvl then 1 else 0) (pr 4 (sub 0 ps) e1 ++ TPow :: pr 2 (sub 1 ps) e2)) as L.
+      rewrite app_length in L. cbn [List.length] in L. lia.
+    + apply (assemble (Pow e1 e2)); auto. intros l Hl Hn. cbn in Hn. apply good_pow; auto; [apply pr4_starts|].
+      destruct Hl as [->|[->|[->| ->]]]; auto; lia.
+  - (* Call *) destruct (wf_call f args WF) as [Wf Wargs]. rewrite pr_call.
+    assert (HD : starts_nominus (TId f :: TLp :: go_args ps 0 args))
+      by (intros Y; eexists; eexists; split; reflexivity).
+    destruct args as [|a l].
+    + exists (6 + 7 * (ps [] + 1)). split.
+      * pose proof (wrap_length_ge ps (if 4 <? lvl then 1 else 0) (TId f :: TLp :: go_args ps 0 [])). simpl in *. lia.
+      * apply (assemble (Call f [])); auto. intros l Hl _. apply (from_A _ _ 1); auto.
+        intros rest _ n Hn. destruct n; [lia|]. reflexivity.
+    + destruct (args_main (a :: l) H Wargs ltac:(discriminate) ps 0) as (cg & Hcg & Cg).
+      exists (cg + 1 + 5 + 7 * (ps [] + 1)). split.
+      * pose proof (wrap_length_ge ps (if 4 <? lvl then 1 else 0) (TId f :: TLp :: go_args ps 0 (a :: l))) as L.
+        cbn [List.length] in L. lia.
+      * apply (assemble (Call f (a :: l))); auto. intros l0 Hl _. apply (from_A _ _ (cg + 1)); auto.
+        intros rest _ n Hn. destruct n as [|n1]; [lia|].
+        destruct (go_args_norp ps 0 a l rest) as (t & r & E & NE).
+        cbn [app]. rewrite E, pA_call by auto. rewrite <- E. rewrite Cg; [reflexivity|lia].
+Qed.
+Theorem parse_print_toks e ps : wf_expr e = true -> parse_toks (pr 0 ps e) = Some e.
+Proof.
+  intros WF. unfold parse_toks.
+  destruct (parse_main e WF ps 0 (or_introl eq_refl)) as (c & Hc & C).
+  pose proof (C [] 1 (e, []) eq_refl (pEl_nil e)) as H.
+  rewrite app_nil_r in H. cbn [P] in H. rewrite H; [reflexivity|]. unfold fuel_for. lia.
 Qed.
 
-Theorem parse_print_toks e ps : no_call e = true -> wf_expr e = true -> parse_toks (pr 0 ps e) = Some e.
-Proof.
-  intros NC WF. unfold parse_toks.
-  pose proof (parse_main e NC WF ps 0 (or_introl eq_refl) [] 1 (e, []) eq_refl (pEl_nil e)) as H.
-  rewrite app_nil_r in H. cbn [P] in H. rewrite H; [reflexivity|].
-  unfold fuel_for. pose proof (cost_bound e ps 0 NC). lia.
-Qed.
-
-
-(* ================================================================== part LP5 *)
 (* ------------------------------------------------------------------ characters <-> AST *)
 Lemma forallb_wrap w B : forallb lwf_tok (wrap w B) = forallb lwf_tok B.
 Proof. induction w; simpl; auto. rewrite forallb_app. simpl. rewrite IHw. apply andb_true_r. Qed.
 
-Lemma pr_lwf : forall e lvl ps, no_call e = true -> wf_expr e = true -> forallb lwf_tok (pr lvl ps e) = true.
+Lemma pr_lwf : forall e, wf_expr e = true -> forall lvl ps, forallb lwf_tok (pr lvl ps e) = true.
 Proof.
-  induction e; intros lvl ps NC WF; try discriminate; cbn [pr]; rewrite forallb_wrap; simpl in NC, WF;
-    try (apply andb_true_iff in NC; destruct NC as [NC1 NC2]; apply andb_true_iff in WF; destruct WF as [WF1 WF2]).
+  induction e using expr_ind'; intros WF lvl ps; try rewrite pr_call; cbn [pr]; rewrite forallb_wrap.
   - simpl. rewrite andb_true_r. apply (wf_lwf (TNum ip fp)). exact WF.
   - simpl. rewrite andb_true_r. exact WF.
-  - simpl. apply IHe; auto.
-  - rewrite forallb_app. simpl. rewrite IHe1, IHe2; auto.
-  - rewrite forallb_app. simpl. rewrite IHe1, IHe2; auto.
-  - rewrite forallb_app. simpl. rewrite IHe1, IHe2; auto.
-  - rewrite forallb_app. simpl. rewrite IHe1, IHe2; auto.
-  - rewrite forallb_app. simpl. rewrite IHe1, IHe2; auto.
+  - simpl in *. apply IHe; auto.
+  - simpl in WF. apply andb_true_iff in WF. destruct WF. rewrite forallb_app. simpl. rewrite IHe1, IHe2; auto.
+  - simpl in WF. apply andb_true_iff in WF. destruct WF. rewrite forallb_app. simpl. rewrite IHe1, IHe2; auto.
+  - simpl in WF. apply andb_true_iff in WF. destruct WF. rewrite forallb_app. simpl. rewrite IHe1, IHe2; auto.
+  - simpl in WF. apply andb_true_iff in WF. destruct WF. rewrite forallb_app. simpl. rewrite IHe1, IHe2; auto.
+  - simpl in WF. apply andb_true_iff in WF. destruct WF. rewrite forallb_app. simpl. rewrite IHe1, IHe2; auto.
+  - destruct (wf_call f args WF) as [Wf Wargs]. cbn [forallb lwf_tok]. rewrite Wf. cbn [andb].
+    generalize 0. induction args as [|a l IH]; intros i; [reflexivity|].
+    inversion H as [|? ? Ha Hl]; subst. inversion Wargs as [|? ? Wa Wl]; subst.
+    cbn [go_args]. rewrite forallb_app. rewrite (Ha Wa). cbn [andb].
+    assert (WFl : wf_expr (Call f l) = true) by (cbn [wf_expr]; rewrite Wf; cbn [andb];
+      clear - Wl; induction Wl as [|x l' Hx Hl' IHl']; [reflexivity|rewrite Hx; exact IHl']).
+    destruct l as [|b l']; [apply (IH Hl WFl Wl)|]. cbn [forallb lwf_tok andb]. apply (IH Hl WFl Wl).
 Qed.
 
-Theorem parse_print_partial e s : no_call e = true -> wf_expr e = true -> parse (print s e) = Some e.
+Theorem parse_print e s : wf_expr e = true -> parse (print s e) = Some e.
 Proof.
-  intros NC WF. unfold parse, print. rewrite tokenize_render by (apply pr_lwf; auto).
+  intros WF. unfold parse, print. rewrite tokenize_render by (apply pr_lwf; auto).
   apply parse_print_toks; auto.
 Qed.
 
 (* two spellings of one AST have the same value: whatever the spacing, power notation, redundant parentheses *)
-Corollary spelling_independent e s s' env venv : no_call e = true -> wf_expr e = true ->
-  eval_string env venv (print s e) = eval_string env venv (print s' e).
-Proof. intros NC WF. unfold eval_string. rewrite !parse_print_partial; auto. Qed.
+Corollary spelling_independent e s s' cx : wf_expr e = true ->
+  eval_ctx cx (print s e) = eval_ctx cx (print s' e).
+Proof. intros WF. unfold eval_ctx. rewrite !parse_print; auto. Qed.
 
 (* ------------------------------------------------------------------ call surgery *)
 Lemma find_char_first c : forall l r, notin c l = true -> find [c] (l ++ c :: r) = Some (List.length l).
@@ -924,8 +1032,8 @@ Proof.
     rewrite pE_rp_none in H. discriminate.
   - rewrite pA_paren, H. reflexivity.
 Qed.
-Theorem eval_identity env venv a : eval env venv (Call (s2l "identity") [a]) = eval env venv a /\
-  eval env venv (Call (s2l "no_op") [a]) = eval env venv a.
+Theorem eval_identity cx a : eval cx (Call (s2l "identity") [a]) = eval cx a /\
+  eval cx (Call (s2l "no_op") [a]) = eval cx a.
 Proof. split; destruct a; reflexivity. Qed.
 
 Example surgery_repaired_precedence :
@@ -934,6 +1042,12 @@ Example surgery_repaired_precedence :
   oq_eqb (eval_string env [] (s2l "2*no_op(r + rr)")) (Some (mkq 7 2)) = true /\
   oq_eqb (eval_string env [] (s2l "2*(r + rr)")) (Some (mkq 7 2)) = true.
 Proof. split; [|split]; vm_compute; reflexivity. Qed.
+
+Example literal_forms :
+  tokenize (s2l "2.5e-1") = Some [TNum ["0"] ["2"; "5"]] /\ tokenize (s2l ".5") = Some [TNum ["0"] ["5"]] /\
+  tokenize (s2l "0.5E1") = Some [TNum ["5"] []] /\ tokenize (s2l "125e-3") = Some [TNum ["0"] ["1"; "2"; "5"]] /\
+  tokenize (s2l "2e") = None /\ parse (s2l "+x - +2") = parse (s2l "x - 2").
+Proof. repeat split; vm_compute; reflexivity. Qed.
 
 (* calls round-trip on examples (the general proof covers the operator subset only) *)
 Example parse_print_call_example :
